@@ -433,4 +433,29 @@ def runHdr (cl bypass : Bool) (n0 hold nw : Nat) : String :=
   let x5 := wholeCall proc proc cl d x4 (nw + 1)
   " ".intercalate ((List.range (nw + 2)).map (showCall x5)) ++ " | " ++ ",".intercalate (x5.sys.recs.map showRec)
 
+/-! ### the index a request reports (round 5)
+
+A caller of AppendRecord that hands an index on to its own caller (ptt.DoPostArticle → NewPost →
+summary.Aid) reports either the index the append returned, or — `Report.lengthAfter` — the last
+slot of the file as it is at some later moment, read after the lock was released (the board total
+that SetBTotal takes from a stat of .DIR).  `appendIndex` (Gen/Lock.lean) says which. -/
+
+/-- every caller that reports an index reports the one AppendRecord returned. -/
+def reportsAppendedOf (callers : List (String × String)) : Bool :=
+  !callers.isEmpty && callers.all (fun f => f.2 == "returned" || f.2 == "dropped" || f.2 == "local-use")
+
+inductive Report where
+  | appended       -- the index AppendRecord returned
+  | lengthAfter    -- the number of records in the file when the request looks again, lock released
+  deriving DecidableEq, Repr
+
+/-- the slot (0-based) a request whose append has returned reports, when it reports in state `s`. -/
+def reportSlot (r : Report) (s : Sys) (t : Nat) : Option Nat :=
+  match s.pc t with
+  | .doneOk i =>
+      match r with
+      | .appended => some i
+      | .lengthAfter => some (s.recs.length - 1)
+  | _ => none
+
 end PttVerif.C14
